@@ -1,5 +1,5 @@
 (** C13: correspondence of the statistics and oracle on the implementation's observations. *)
-From Vib Require Import Model.Base Model.Lattice Model.Tokenizer Model.DictBuild Model.Mapper Check.TokCheck.
+From Vib Require Import Model.Base Model.Lattice Model.Tokenizer Model.DictBuild Model.Mapper Model.Float Check.TokCheck.
 
 (** evaluations recounted from the implementation's own lattice dump: one per (node, node of
     the boundary it connects to), plus EOS against the boundary it is connected to *)
@@ -39,6 +39,24 @@ Fixpoint sorted_by (le : N -> N -> bool) (l : list N) : bool :=
   | x :: t => match t with [] => true | y :: _ => le x y && sorted_by le t end
   end.
 
+(** the listed statistics are count / total in binary64 (Flocq evaluation of the division the code performs) *)
+Definition f64_same (x y : f64) : bool :=
+  match f64_cmp x y with
+  | Some Eq => true
+  | None => match x, y with BinarySingleNaN.B754_nan, BinarySingleNaN.B754_nan => true | _, _ => false end
+  | _ => false
+  end.
+Definition values_ok (cnt ids bits : list N) : bool :=
+  let total := Z.of_N (fold_right N.add 0%N cnt) in
+  Nat.eqb (length ids) (length bits)
+  && forallb (fun p => f64_same (f64_of_bits (Z.of_N (snd p))) (f64_prob (Z.of_N (cnt_of cnt (fst p))) total)) (combine ids bits).
+Definition probs_values_ok (lc lo rc ro : list N) (pb : list (list N)) : bool :=
+  match pb with
+  | [lpb; rpb] => values_ok lc lo lpb && values_ok rc ro rpb
+  | [] => true
+  | _ => false
+  end.
+
 Definition c13_oracle (c : tokcase) : bool :=
   if negb ((tc_built c =? 0)%N && (tc_space_res c =? 0)%N && forallb (fun so => (so_outcome so =? 0)%N) (tc_sents c))
   then true else
@@ -48,11 +66,11 @@ Definition c13_oracle (c : tokcase) : bool :=
   | Some _ => counts_oracle nl nr [] (tc_sents c)
   end
   && match tc_extra c, last_counts (tc_sents c) with
-     | [lo; ro; [acc; same]], Some (lc, rc) =>
-         is_perm_from1 (length lc) lo && sorted_by (before lc) lo
+     | lo :: ro :: [acc; same] :: pb, Some (lc, rc) =>
+         probs_values_ok lc lo rc ro pb && is_perm_from1 (length lc) lo && sorted_by (before lc) lo
          && is_perm_from1 (length rc) ro && sorted_by (before rc) ro
          && (acc =? 1)%N && (same =? 1)%N
-     | [lo; ro; [acc; same]], None =>
+     | lo :: ro :: [acc; same] :: _, None =>
          (* no sentence was counted: counters are all zero; ids in ascending order *)
          list_eqb N.eqb lo (ids_from1 (N.to_nat nl)) && list_eqb N.eqb ro (ids_from1 (N.to_nat nr))
          && (acc =? 1)%N && (same =? 1)%N
@@ -64,13 +82,13 @@ Definition c13_oracle (c : tokcase) : bool :=
 Definition c13_corr (c : tokcase) : bool :=
   tok_corr c
   && match tc_extra c, last_counts (tc_sents c) with
-     | [lo; ro; _], Some (lc, rc) => list_eqb N.eqb (probs_order lc) lo && list_eqb N.eqb (probs_order rc) ro
+     | lo :: ro :: _, Some (lc, rc) => list_eqb N.eqb (probs_order lc) lo && list_eqb N.eqb (probs_order rc) ro
      | _, _ => true
      end.
 
 Definition c13_nontrivial (c : tokcase) : bool :=
   match tc_extra c, last_counts (tc_sents c) with
-  | [_; _; _], Some (lc, _) => Nat.leb 2 (length (filter (fun x => negb (x =? 0)%N) lc))
+  | _ :: _ :: _ :: _, Some (lc, _) => Nat.leb 2 (length (filter (fun x => negb (x =? 0)%N) lc))
   | _, _ => false
   end.
 
